@@ -189,12 +189,15 @@ let () =
        (match spec_read (effective_limit max) b with
         | TooLarge -> "err too-large bigalloc=0"
         | _ -> "-")));
-  register "rw" (fun a ->
+  let rw_op ack a =
       (* read a frame, then WriteTo the *FrameHeader that came back (what examples/proxy does) *)
       let max = nb (List.nth a 0) and b = bytes_of_hex (List.nth a 1) in
       let obs = split_obs (List.nth a 2) in
       let m = match (read_frame_with_size max b).ro_res with
         | Ok f ->
+          let f = match f.fh_body with
+            | Some (BSettings st) when ack -> { f with fh_body = Some (BSettings { st with st_ack = true }) }
+            | _ -> f in
           (match write_to f N0 with
            | Ok (out, _) -> "ok " ^ hex_of_bytes out
            | Err c -> "write-err " ^ err_name c
@@ -223,18 +226,21 @@ let () =
             | None -> Printf.sprintf "unparsable in=[%s]" (frame_str f)
           end
         | _ -> "-" in
-      (m, s));
-  register "wr" (fun a ->
+      (m, s) in
+  register "rw" (rw_op false);
+  register "rwd" (fun a -> rw_op false (List.tl a));
+  register "rwa" (rw_op true);
+  let wr_op prev a =
       let (_, pre, sid, padn, bd, obs) = parse_wr a in
-      let m = match write_to (build pre sid bd) padn with
+      let m = match write_to (build_on prev pre sid bd) padn with
         | Ok (out, _) -> hex_of_bytes out
         | Err c -> "err " ^ err_name c
         | Panic w -> "panic " ^ string_of_int (i w) in
-      (m, wr_spec pre sid bd padn (bytes_of_hex obs)));
-  register "wr2" (fun a ->
+      (m, wr_spec pre sid bd padn (bytes_of_hex obs)) in
+  let wr2_op prev a =
       let padn2 = nb (List.hd a) in
       let (_, pre, sid, padn, bd, obs) = parse_wr (List.tl a) in
-      let m = match write_to (build pre sid bd) padn with
+      let m = match write_to (build_on prev pre sid bd) padn with
         | Ok (out1, f1) ->
           (match write_to f1 padn2 with
            | Ok (out2, _) -> hex_of_bytes out1 ^ "," ^ hex_of_bytes out2
@@ -247,4 +253,40 @@ let () =
       let o1, o2 = match String.split_on_char ',' obs with [x; y] -> (x, y) | _ -> failwith "obs" in
       let s1 = wr_spec pre sid bd padn (bytes_of_hex o1) and s2 = wr_spec pre sid bd padn2 (bytes_of_hex o2) in
       let ok s = String.length s > 3 && String.sub s 0 3 = "ok " in
-      (m, if ok s1 && ok s2 then "ok " ^ String.sub s1 3 (String.length s1 - 3) else "first: " ^ s1 ^ " second: " ^ s2))
+      (m, if ok s1 && ok s2 then "ok " ^ String.sub s1 3 (String.length s1 - 3) else "first: " ^ s1 ^ " second: " ^ s2) in
+  register "wr" (wr_op acquire_header);
+  register "wr2" (wr2_op acquire_header);
+  register "wrd" (fun a ->
+      (* a header recycled through the pool (Reset) that then holds a payload and a length *)
+      let prev = { acquire_header with fh_payload = bytes_of_hex (List.nth a 0); fh_length = nb (List.nth a 1) } in
+      match List.tl (List.tl a) with
+      | "wr" :: rest -> wr_op prev rest
+      | "wr2" :: rest -> wr2_op prev rest
+      | _ -> failwith "wrd");
+  register "rdm" (fun a ->
+      (* each read obeys its own limit (d = the default) and nothing else *)
+      let lims = String.split_on_char ',' (List.nth a 0) and b = bytes_of_hex (List.nth a 1) in
+      let lim_of t = if t = "d" then c_defaultMaxLen else nb t in
+      let starts_with p s = String.length s >= String.length p && String.sub s 0 (String.length p) = p in
+      let rec loop_m lims b acc =
+        match lims with
+        | [] -> List.rev acc
+        | t :: rest ->
+          let max = lim_of t in
+          let r = read_frame_with_size max b in
+          let s = rd_model max b in
+          let continue_ = match r.ro_res with Ok _ -> true | Err c -> int_of_n c = 3 | Panic _ -> false in
+          if continue_ then loop_m rest (dropN r.ro_used b) (s :: acc) else List.rev (s :: acc) in
+      let rec loop_s lims b acc =
+        match lims with
+        | [] -> List.rev acc
+        | t :: rest ->
+          let max = lim_of t in
+          let s = rd_spec max b in
+          let used = match spec_read (effective_limit max) b with
+            | Frame (_, k) | UnknownType k -> Some k
+            | _ -> None in
+          (match used with
+           | Some k when starts_with "ok " s || starts_with "unknown " s -> loop_s rest (dropN k b) (s :: acc)
+           | _ -> List.rev (s :: acc)) in
+      (String.concat " | " (loop_m lims b []), String.concat " | " (loop_s lims b [])))
